@@ -43,6 +43,25 @@ Theorem C02_literal_body_rejected : forall kinds g name params rty dname dvar dk
            (EFunction name params rty [SDefinition dname dvar dkind dty (ECollection k values csp) dsp] pure fsp) ctx s).
 Proof. exact LiteralRet.literal_body_rejected. Qed.
 
+(* the same for a blob literal whose field initialisers are literals, and the general form: a value that never carries a
+   return *)
+Theorem C02_blob_literal_does_not_return : forall kinds g v fields self sp f ctx s r s',
+  Forall (fun fe => is_lit (snd fe)) fields ->
+  r_expr (afix kinds (gfix g) f) (EBlob v fields self sp) ctx s = Ok (r, s') -> fst r = None.
+Proof. exact LiteralRet.blob_ret_none. Qed.
+
+Theorem C02_blob_literal_body_rejected : forall kinds g name params rty dname dvar dkind dty v fields self bsp dsp pure fsp f ctx s,
+  is_void_ty rty = false -> Forall (fun fe => is_lit (snd fe)) fields -> wf s ->
+  notok (r_expr (afix kinds (gfix g) f)
+           (EFunction name params rty [SDefinition dname dvar dkind dty (EBlob v fields self bsp) dsp] pure fsp) ctx s).
+Proof. exact LiteralRet.blob_literal_body_rejected. Qed.
+
+Theorem C02_noret_body_rejected : forall kinds g name params rty dname dvar dkind dty value dsp pure fsp f ctx s,
+  is_void_ty rty = false ->
+  (forall f' ctx' s0 r0 s0', r_expr (afix kinds (gfix g) f') value ctx' s0 = Ok (r0, s0') -> fst r0 = None) -> wf s ->
+  notok (r_expr (afix kinds (gfix g) f) (EFunction name params rty [SDefinition dname dvar dkind dty value dsp] pure fsp) ctx s).
+Proof. exact LiteralRet.noret_body_rejected. Qed.
+
 Example C02_is_lit_def : forall e, is_lit e = (exists t, lit_type e = Some t /\ rigid t = true).
 Proof. reflexivity. Qed.
 
@@ -255,7 +274,22 @@ Example C02_example_literal_body :
                           SStatementExpression (EInt 2 sp0) sp0]) = Ok tt.
 Proof. repeat split; vm_compute; reflexivity. Qed.
 
+(* B :: blob { x: int } ; f :: fn -> int do l := B { x: 1 } end *)
+Example C02_example_blob_literal_body :
+  typecheck 40 (mkResolved [mkVar 0 "start" sp0 true Const; mkVar 1 "f" sp0 true Const; mkVar 2 "l" sp0 false Mutable;
+                            mkVar 3 "B" sp0 true Const; mkVar 4 "self" sp0 false Const]
+    [SBlob "B" 3 sp0 [] [("x", (sp0, TResolved BInt sp0))] false;
+     SDefinition "f" 1 Const (TImplied sp0)
+       (EFunction "lambda" [] (TResolved BInt sp0)
+          [SDefinition "l" 2 Mutable (TImplied sp0) (EBlob 3 [("x", EInt 1 sp0)] 4 sp0) sp0] false sp0) sp0;
+     SDefinition "start" 0 Const (TImplied sp0) (EFunction "lambda" [] (TResolved BVoid sp0) [] false sp0) sp0])
+  = Err (mkErr KExotic sp0) [].
+Proof. vm_compute. reflexivity. Qed.
+
 Print Assumptions C02_E0.
+Print Assumptions C02_blob_literal_does_not_return.
+Print Assumptions C02_blob_literal_body_rejected.
+Print Assumptions C02_noret_body_rejected.
 Print Assumptions C02_literal_does_not_return.
 Print Assumptions C02_literal_body_rejected.
 Print Assumptions C02_typed_block_accepted.
